@@ -50,6 +50,10 @@ Proof.
     destruct (ptr =? 0) eqn:E; destruct Hinv as [[A B]|[A B]]; lia.
 Qed.
 
+(* keep the kernel from unfolding the 400-step recursion when it re-checks proofs *)
+Local Opaque un_go.
+Local Strategy opaque [unpack_name_fuel un_go].
+
 Lemma unpack_name_safe msg off : wfb msg -> safe_progress off (lenN msg) (unpack_name msg off).
 Proof.
   intro Hm. destruct (unpack_name msg off) as [[s o]| | |] eqn:E; cbn; auto.
@@ -133,18 +137,13 @@ Proof.
   apply loop_safe; [intros; apply unpack_name_safe, Hm|exact H|apply fuel_enough].
 Qed.
 
+Ltac split_ifs :=
+  repeat match goal with
+         | |- context [if ?c then _ else _] => destruct c eqn:?
+         end.
 Lemma unpack_apl_prefix_safe msg off : safe_progress off (lenN msg) (unpack_apl_prefix msg off).
 Proof.
-  unfold unpack_apl_prefix.
-  destruct (lenN msg <? off + 2) eqn:E1; [exact I|].
-  destruct (lenN msg <? off + 2 + 1) eqn:E2; [exact I|].
-  destruct (lenN msg <? off + 2 + 1 + 1) eqn:E3; [exact I|].
-  destruct (be (take_at msg off 2) 0 =? 1).
-  - destruct (8 * 4 <? _); [exact I|]. destruct (4 <? _); [exact I|].
-    destruct (lenN msg <? _) eqn:E4; [exact I|]. destruct (_ && _); cbn; lia.
-  - destruct (be (take_at msg off 2) 0 =? 2); [|exact I].
-    destruct (8 * 16 <? _); [exact I|]. destruct (16 <? _); [exact I|].
-    destruct (lenN msg <? _) eqn:E4; [exact I|]. destruct (_ && _); cbn; lia.
+  unfold unpack_apl_prefix. split_ifs; cbn; try exact I; lia.
 Qed.
 Lemma unpack_apl_safe msg off : off <= lenN msg -> safe off (lenN msg) (unpack_apl msg off).
 Proof.
@@ -215,42 +214,44 @@ Lemma safe_bind {A B} off len (r : res (A * N)) (f : A * N -> res (B * N)) :
   safe off len (bind r f).
 Proof. destruct r as [[a o]| | |]; cbn; auto. Qed.
 
+Ltac sb_ok := intros ? ? ?; cbn [fst snd safe]; lia.
+Ltac sb lem := apply safe_bind; [apply safe_bind; [lem|sb_ok]|sb_ok].
+
 (* one statement of a generated unpack() *)
 Lemma unpack_field_safe got k msg off :
   wfb msg -> off <= lenN msg -> safe off (lenN msg) (unpack_field got k msg off).
 Proof.
   intros Hm Hoff.
-  assert (one : forall (r : res (fval * N)), safe off (lenN msg) r ->
-           safe off (lenN msg) (bind r (fun p => Ok ([fst p], snd p)))).
-  { intros r Hr. destruct r as [[a o]| | |]; cbn in *; auto. }
-  assert (wrap : forall (X : Type) (r : res (X * N)) (g : X -> fval), safe off (lenN msg) r ->
-           safe off (lenN msg) (bind r (fun x => Ok (g (fst x), snd x)))).
-  { intros X r g Hr. destruct r as [[a o]| | |]; cbn in *; auto. }
-  destruct k; cbn [unpack_field].
-  1-5: apply one; apply wrap; apply unpack_fixed_safe.
-  - apply one, wrap, safe_progress_safe, unpack_name_safe, Hm.
-  - apply one, wrap, safe_progress_safe, unpack_string_safe.
-  - apply one. pose proof (unpack_txt_safe msg off Hoff) as H.
+  destruct k; cbn [unpack_field]; cbv zeta.
+  - sb ltac:(apply unpack_fixed_safe).
+  - sb ltac:(apply unpack_fixed_safe).
+  - sb ltac:(apply unpack_fixed_safe).
+  - sb ltac:(apply unpack_fixed_safe).
+  - sb ltac:(apply unpack_fixed_safe).
+  - sb ltac:(apply safe_progress_safe, unpack_name_safe, Hm).
+  - sb ltac:(apply safe_progress_safe, unpack_string_safe).
+  - apply safe_bind; [|sb_ok].
+    pose proof (unpack_txt_safe msg off Hoff) as H.
     destruct (unpack_txt msg off) as [[a o]| | |]; cbn in *; auto.
-  - apply one. replace (lenN msg <? off) with false by lia. cbn. lia.
-  - apply one, wrap, unpack_to_end_safe, Hoff.
-  - apply one, wrap, unpack_to_end_safe. destruct e; cbn; lia.
-  - apply one, wrap, unpack_to_end_safe. destruct e; cbn; lia.
-  - apply one, wrap, unpack_to_end_safe. destruct e; cbn; lia.
-  - apply one, wrap, unpack_to_end_safe. destruct e; cbn; lia.
-  - apply one, wrap, unpack_fixed_safe.
-  - apply one, wrap, unpack_fixed_safe.
-  - apply one, wrap, unpack_nsec_safe, Hoff.
-  - apply one, wrap, unpack_opts_safe, Hoff.
-  - apply one, wrap, unpack_svcb_safe, Hoff.
-  - apply one, wrap, unpack_apl_safe, Hoff.
-  - apply one, wrap, unpack_names_safe; assumption.
+  - apply safe_bind; [|sb_ok]. replace (lenN msg <? off) with false by lia. cbn. lia.
+  - sb ltac:(apply unpack_to_end_safe, Hoff).
+  - sb ltac:(apply unpack_to_end_safe; destruct e; cbn; lia).
+  - sb ltac:(apply unpack_to_end_safe; destruct e; cbn; lia).
+  - sb ltac:(apply unpack_to_end_safe; destruct e; cbn; lia).
+  - sb ltac:(apply unpack_to_end_safe; destruct e; cbn; lia).
+  - sb ltac:(apply unpack_fixed_safe).
+  - sb ltac:(apply unpack_fixed_safe).
+  - sb ltac:(apply unpack_nsec_safe, Hoff).
+  - sb ltac:(apply unpack_opts_safe, Hoff).
+  - sb ltac:(apply unpack_svcb_safe, Hoff).
+  - sb ltac:(apply unpack_apl_safe, Hoff).
+  - sb ltac:(apply unpack_names_safe; assumption).
   - destruct (_ =? gw_v4).
-    { pose proof (unpack_fixed_safe 4 msg off) as H. destruct (unpack_fixed 4 msg off) as [[a o]| | |]; cbn in *; auto. }
+    { apply safe_bind; [apply unpack_fixed_safe|sb_ok]. }
     destruct (_ =? gw_v6).
-    { pose proof (unpack_fixed_safe 16 msg off) as H. destruct (unpack_fixed 16 msg off) as [[a o]| | |]; cbn in *; auto. }
+    { apply safe_bind; [apply unpack_fixed_safe|sb_ok]. }
     destruct (_ =? gw_host).
-    { pose proof (unpack_name_safe msg off Hm) as H. destruct (unpack_name msg off) as [[a o]| | |]; cbn in *; auto. lia. }
+    { apply safe_bind; [apply safe_progress_safe, unpack_name_safe, Hm|sb_ok]. }
     cbn. lia.
 Qed.
 
